@@ -88,9 +88,12 @@ pub fn check(deep: bool, st: &mut PStats, fails: &mut Vec<Failure>) {
                 }
                 let mut names: Vec<&String> = saved.keys().collect();
                 names.dedup();
-                let success = stdout.contains("> Success!");
-                let failure = stdout.contains("> Failure!");
-                if success == failure { fails.push(Failure { property: "C10", input: what.clone(), detail: format!("neither or both of Success/Failure reported (exit {rc})") }); }
+                let low = stdout.to_lowercase();
+                let success = low.contains("success");
+                let failure = low.contains("failure") || low.contains("unable to find");
+                // the verdict is read off the final message; if its wording is not recognised the harness cannot judge (no alarm)
+                if !success && !failure { fails.push(Failure { property: "harness", input: what.clone(), detail: format!("the output of verify mentions neither success nor failure (exit {rc}): {}", stdout.lines().last().unwrap_or("")) }); continue; }
+                if success && failure { fails.push(Failure { property: "C10", input: what.clone(), detail: format!("both success and failure reported (exit {rc})") }); }
                 if success != expect_success {
                     fails.push(Failure { property: "C10", input: what.clone(), detail: format!("anthem reports {} although {}", if success { "success" } else { "failure" }, if expect_success { "every prover run printed SZS status Theorem" } else { "not every prover run printed SZS status Theorem" }) });
                 }
@@ -99,7 +102,7 @@ pub fn check(deep: bool, st: &mut PStats, fails: &mut Vec<Failure>) {
         // a prover that cannot be started
         st.runs += 1;
         if let Ok((rc, stdout, _, _)) = run("theorem", "2", files, flags, false) {
-            if stdout.contains("> Success!") { fails.push(Failure { property: "C10", input: format!("anthem verify {} without any prover on PATH", flags.join(" ")), detail: format!("success reported although no prover could be started (exit {rc})") }); }
+            if stdout.to_lowercase().contains("success") && !stdout.to_lowercase().contains("failure") { fails.push(Failure { property: "C10", input: format!("anthem verify {} without any prover on PATH", flags.join(" ")), detail: format!("success reported although no prover could be started (exit {rc})") }); }
         }
     }
 }
